@@ -751,6 +751,8 @@ def gen_capacity_scripts(tier, seed, variant):
             out.append(gen_table.make_script(rng, f"k{seed}_{i}", kind=rng.choice(["table-drop", "table-plain", "table-1", "table-2", "table-200", "table-zst", "table-zst64"])))
         else:
             out.append(gen_map.make_script(rng, f"k{seed}_{i}"))
+    for i in range(n):
+        out.append(gen_map.make_shrink_script(rng, f"ks{seed}_{i}"))
     return "".join(out)
 
 def check_c08(run):
